@@ -1,8 +1,632 @@
-//! C07 — not built yet.
+//! C07 — JSON interest-bit rank/select and node positions are exact (DESIGN §4 C07).
+//!
+//! Two sub-checks:
+//! * `ib-rank-select`: any text (valid JSON, near-valid mutations, token soups, raw
+//!   bytes). The model is the list of 1-bit positions read from `index.ib()` below
+//!   `ib_len`; `ib_rank1`, `ib_select1` and `ib_select1_from` (every hint) are compared
+//!   with it. `cursor_at_offset` is checked for consistency only (a returned cursor must
+//!   sit on the greatest interest bit not after the offset).
+//! * `node-positions`: valid G-json texts with a span table. Every cursor reachable from
+//!   the root reports its span start; `cursor_at_offset(o)` / `cursor_at_position(l, c)`
+//!   return the node with the greatest start <= o for every offset.
 use crate::engine::*;
+use crate::gen::json::*;
+use serde_json::{json, Value};
+use succinctly::json::light::{JsonCursor, JsonIndex};
 
-pub const RULE: &str = "not built";
+pub const RULE: &str = "ib-rank-select: texts of 0-20000 bytes (G-json renderings, near-valid mutations, token soups, raw bytes, tiled to many IB words); model = 1-bit positions of index.ib() below ib_len; ib_rank1 at every position 0..=len+70 (sampled when large) and huge positions, ib_select1 for k in 0..ones+3 and k in {2^32-1, 2^32+j, usize::MAX}, ib_select1_from for every (k, hint) pair with hint in 0..=words+10 (stratified around the answer word when large) on the owned and the borrowed (from_parts) index. node-positions: valid G-json texts; every reachable cursor's text_position = recorded span start (values and keys, document order); cursor_at_offset(o) for every o in 0..=len+2 and cursor_at_position(naive LF/CR/CRLF line, column) = node with greatest start <= o, None iff none / out of range. Non-trivial: >=2 IB words and >=3 ones (and hints other than the cursor's own rank/8); distinct by hash(text).";
+
+const BIG: usize = 1usize << 32;
+
+// ------------------------------------------------------------------ text sources
+
+fn soup(u: &mut Src, n: usize) -> Vec<u8> {
+    const TOK: &[&[u8]] = &[
+        b"{", b"}", b"[", b"]", b":", b",", b"\"", b"\\", b"\\\"", b"\\\\", b"\"a\"", b"\"\"", b"1", b"-0.5e+3", b"true", b"false", b"null", b" ", b"\n", b"\t", b"\r", b"x", b"\\u00e9", b"\xc3\xa9", b"[]", b"{}", b"\"k\":", b"1,", b"@", b"`", b"~", b"\x7f", b"*", b"<", b".", b"+", b"-", b"e", b"0",
+    ];
+    let mut v = Vec::with_capacity(n + 8);
+    while v.len() < n {
+        v.extend_from_slice(TOK[u.below(TOK.len())]);
+    }
+    v.truncate(n);
+    v
+}
+
+fn valid_text(u: &mut Src, max_nodes: usize) -> Vec<u8> {
+    let o = GenOpts {
+        max_depth: *u.pick(&[1, 2, 3, 5, 8]),
+        max_nodes: u.range(1, max_nodes),
+        strings: *u.pick(&[StrPalette::Full, StrPalette::Ascii, StrPalette::AsciiPlain]),
+        max_str_len: *u.pick(&[4, 24, 120]),
+        ..GenOpts::default()
+    };
+    let j = gen_value(u, &o);
+    let ro = render_opts(u);
+    let r = render(&j, u, ro);
+    drop_deep(j);
+    r.text
+}
+
+fn mutate(u: &mut Src, t: &mut Vec<u8>) {
+    for _ in 0..u.range(1, 4) {
+        if t.is_empty() {
+            t.push(u.byte());
+            continue;
+        }
+        let i = u.below(t.len());
+        match u.below(6) {
+            0 => t[i] = u.byte(),
+            1 => t.insert(i, *u.pick(b"{}[]:,\"\\ \n01et")),
+            2 => {
+                t.remove(i);
+            }
+            3 => t.truncate(i),
+            4 => {
+                let j = u.below(t.len());
+                t.swap(i, j);
+            }
+            _ => {
+                let j = u.below(t.len());
+                let (a, b) = (i.min(j), i.max(j));
+                let piece = t[a..b].to_vec();
+                let at = u.below(t.len());
+                for (k, x) in piece.into_iter().enumerate() {
+                    t.insert(at + k, x);
+                }
+            }
+        }
+    }
+}
+
+/// Any text up to `max` bytes; returns (text, source class).
+fn any_text(u: &mut Src, max: usize) -> (Vec<u8>, &'static str) {
+    let (mut t, cls) = match u.below(8) {
+        0 | 1 | 2 => (valid_text(u, 120), "valid"),
+        3 | 4 => {
+            let mut t = valid_text(u, 80);
+            mutate(u, &mut t);
+            (t, "mutated")
+        }
+        5 | 6 => {
+            let n = u.len_biased(600, &[0, 1, 63, 64, 65, 127, 128, 129]);
+            (soup(u, n), "soup")
+        }
+        _ => {
+            let n = u.len_biased(300, &[0, 1, 63, 64, 65]);
+            (u.bytes(n), "raw")
+        }
+    };
+    // tile to many IB words (little entropy -> long input), with long interest-free
+    // stretches (a long string / whitespace run) so whole IB words are zero
+    if u.ratio(1, 3) && !t.is_empty() {
+        let target = u.len_biased(max, &[64 * 8, 64 * 64, 64 * 65]);
+        let piece = t.clone();
+        let filler: Vec<u8> = match u.below(3) {
+            0 => vec![b' '; u.range(1, 700)],
+            1 => {
+                let mut f = vec![b'"'];
+                f.extend(std::iter::repeat(b'z').take(u.range(1, 900)));
+                f.push(b'"');
+                f
+            }
+            _ => vec![],
+        };
+        while t.len() < target {
+            if u.ratio(1, 4) {
+                t.extend_from_slice(&filler);
+            }
+            t.extend_from_slice(&piece);
+            if u.ratio(1, 3) {
+                t.push(*u.pick(b", \n"));
+            }
+        }
+    }
+    t.truncate(max);
+    (t, cls)
+}
+
+// ------------------------------------------------------------------ model
+
+fn ones_of(index_ib: &[u64], ib_len: usize) -> Vec<usize> {
+    let mut v = vec![];
+    for i in 0..ib_len {
+        let w = i / 64;
+        if w < index_ib.len() && (index_ib[w] >> (i % 64)) & 1 == 1 {
+            v.push(i);
+        }
+    }
+    v
+}
+
+fn hints_for(u: &mut Src, words: usize, answer_word: Option<usize>) -> Vec<usize> {
+    if words <= 40 {
+        let mut v: Vec<usize> = (0..=words + 10).collect();
+        v.push(usize::MAX);
+        v.push(BIG);
+        return v;
+    }
+    let mut v = vec![0, 1, 2, words / 2, words - 2, words - 1, words, words + 1, words + 10, usize::MAX, BIG];
+    if let Some(a) = answer_word {
+        for d in [0usize, 1, 2, 3, 4, 5, 7, 8, 9, 15, 16, 17, 31, 32, 33, 64, 100, 128, 129] {
+            v.push(a.saturating_sub(d));
+            v.push((a + d).min(words + 10));
+        }
+    }
+    for _ in 0..8 {
+        v.push(u.range(0, words + 10));
+    }
+    v.sort();
+    v.dedup();
+    v
+}
+
+fn sel_fail(api: &str, k: usize, hint: Option<usize>, exp: Option<usize>, act: Option<usize>, ones: &[usize], text: &[u8]) -> Fail {
+    // Shape of the known finding: k >= 2^32 is truncated to u32, so the answer is the
+    // (k mod 2^32)-th one instead of None. Anything else keeps the generic signature.
+    let truncated = k >= BIG && exp.is_none() && act.is_some() && act == ones.get(k & 0xffff_ffff).copied();
+    let sig = if truncated { format!("C07/{}/k>=2^32-truncated-to-u32", api) } else { format!("C07/{}/wrong-position", api) };
+    Fail::new(
+        sig,
+        json!({"api": api, "k": k, "hint": hint, "expected": format!("{:?}", exp), "actual": format!("{:?}", act), "ones": ones.len(), "len": text.len(), "input": crate::props::c06::text_json(text)}),
+    )
+}
+
+struct Queries {
+    /// all (k, hint) pairs when the index is small
+    dense: bool,
+}
+
+fn check_rank_select<W: AsRef<[u64]>>(
+    which: &str,
+    index: &JsonIndex<W>,
+    text: &[u8],
+    ones: &[usize],
+    u: &mut Src,
+    st: &mut Stats,
+    q: &Queries,
+    huge_k: bool,
+) -> Result<(), Fail> {
+    let len = text.len();
+    let words = index.ib().len();
+    let n1 = ones.len();
+    let tj = || crate::props::c06::text_json(text);
+
+    // rank
+    let mut rpts: Vec<usize> = if len <= 2500 {
+        (0..=len + 70).collect()
+    } else {
+        let mut v: Vec<usize> = vec![0, 1, len - 1, len, len + 1, len + 63, len + 64, len + 65, len + 70];
+        let step = (words / 150).max(1);
+        let mut w = 0;
+        while w * 64 <= len + 64 {
+            for d in [-1isize, 0, 1] {
+                let p = (w * 64) as isize + d;
+                if p >= 0 {
+                    v.push(p as usize);
+                }
+            }
+            w += step;
+        }
+        for _ in 0..200 {
+            v.push(u.range(0, len + 70));
+        }
+        let s = u.range(0, len);
+        v.extend(s..s + 130);
+        v
+    };
+    rpts.extend([BIG - 1, BIG, BIG + 1, usize::MAX - 64, usize::MAX - 1, usize::MAX]);
+    for &p in &rpts {
+        let exp = ones.partition_point(|&x| x < p.min(len));
+        let act = index.ib_rank1(p);
+        if exp != act {
+            fail!(format!("C07/ib_rank1/{}", if p > len { "past-len" } else { "in-range" }), {"which": which, "pos": p, "expected": exp, "actual": act, "len": len, "input": tj()});
+        }
+    }
+    st.evals(rpts.len() as u64);
+
+    // select (binary search)
+    let ks: Vec<usize> = if n1 + 3 <= 3000 {
+        (0..n1 + 3).collect()
+    } else {
+        let mut v: Vec<usize> = (0..400).map(|_| u.range(0, n1 + 2)).collect();
+        v.extend([0, 1, 2, n1 - 2, n1 - 1, n1, n1 + 1, n1 + 2]);
+        v
+    };
+    for &k in &ks {
+        let exp = ones.get(k).copied();
+        let act = index.ib_select1(k);
+        if exp != act {
+            return Err(sel_fail("ib_select1", k, None, exp, act, ones, text));
+        }
+    }
+    st.evals(ks.len() as u64);
+
+    // select with hint
+    let kh: Vec<usize> = if q.dense && n1 <= 400 {
+        (0..n1 + 3).collect()
+    } else {
+        let mut v: Vec<usize> = vec![0, 1, n1 / 2, n1.saturating_sub(2), n1.saturating_sub(1), n1, n1 + 1, n1 + 2];
+        for _ in 0..40 {
+            v.push(u.range(0, n1 + 1));
+        }
+        v.sort();
+        v.dedup();
+        v
+    };
+    let mut pairs = 0u64;
+    for &k in &kh {
+        let exp = ones.get(k).copied();
+        let hs = hints_for(u, words, exp.map(|p| p / 64));
+        for &h in &hs {
+            let act = index.ib_select1_from(k, h);
+            if exp != act {
+                return Err(sel_fail("ib_select1_from", k, Some(h), exp, act, ones, text));
+            }
+            if h != k / 8 {
+                pairs += 1;
+            }
+        }
+        st.evals(hs.len() as u64);
+    }
+    let _ = pairs;
+
+    // ranks that can never be satisfied but do not wrap to a valid rank in 32 bits
+    for &k in &[BIG - 1, usize::MAX, usize::MAX - 1, (BIG - 1) + BIG] {
+        if (k & 0xffff_ffff) < n1 {
+            continue;
+        }
+        let act = index.ib_select1(k);
+        if act.is_some() {
+            return Err(sel_fail("ib_select1", k, None, None, act, ones, text));
+        }
+        for h in [0, words / 2, words, usize::MAX] {
+            let act = index.ib_select1_from(k, h);
+            if act.is_some() {
+                return Err(sel_fail("ib_select1_from", k, Some(h), None, act, ones, text));
+            }
+        }
+        st.evals(5);
+    }
+
+    // k >= 2^32 whose low 32 bits are a valid rank (shape of the open finding): last,
+    // and only in a fraction of the cases, so everything above has been checked before
+    // a case is excluded for it
+    if huge_k && n1 > 0 {
+        st.class("huge-k-probe");
+        let mut big = vec![BIG, BIG + n1 - 1, BIG + n1 / 2, 3 * BIG + (n1 - 1).min(7)];
+        big.dedup();
+        // one API per case (both carry the same open finding; a known-finding Fail ends
+        // the case, so each must get cases of its own)
+        if u.bool() {
+            st.class("huge-k-probe-select1");
+            for &k in &big {
+                let act = index.ib_select1(k);
+                if act.is_some() {
+                    return Err(sel_fail("ib_select1", k, None, None, act, ones, text));
+                }
+            }
+        } else {
+            st.class("huge-k-probe-select1_from");
+            for &k in &big {
+                for h in [0, words / 2, words, words + 10] {
+                    let act = index.ib_select1_from(k, h);
+                    if act.is_some() {
+                        return Err(sel_fail("ib_select1_from", k, Some(h), None, act, ones, text));
+                    }
+                }
+            }
+        }
+        st.evals(big.len() as u64 * 5);
+    }
+    Ok(())
+}
+
+fn check_any_text(text: &[u8], cls: &str, u: &mut Src, st: &mut Stats) -> Result<(), Fail> {
+    let len = text.len();
+    let index = JsonIndex::build(text);
+    check_eq!("C07/ib_len", len, index.ib_len(), {"len": len});
+    let ones = ones_of(index.ib(), index.ib_len());
+    let words = index.ib().len();
+    // bits at or beyond ib_len would be invisible to select but visible to rank
+    let total: usize = index.ib().iter().map(|w| w.count_ones() as usize).sum();
+    check_eq!("C07/ib/stray-bits-past-ib_len", ones.len(), total, {"len": len, "input": crate::props::c06::text_json(text)});
+
+    let nt = words >= 2 && ones.len() >= 3;
+    if nt {
+        st.nontrivial(hash_bytes(text));
+    }
+    st.class_if(nt, "nontrivial");
+    st.class(&format!("source-{}", cls));
+    st.class_if(words >= 2, "ib-words>=2");
+    st.class_if(words > 40, "ib-words>40");
+    st.class_if(words > 128, "ib-words>128");
+    st.class_if(len % 64 != 0, "len-not-multiple-of-64");
+    st.class_if(ones.is_empty(), "no-ones");
+    let zero_words = index.ib().iter().filter(|w| **w == 0).count();
+    st.class_if(zero_words >= 3 && !ones.is_empty(), "zero-ib-words>=3");
+    let gap = ones.windows(2).any(|w| w[1] / 64 >= w[0] / 64 + 4);
+    st.class_if(gap, "gap>=4-words-between-ones");
+    st.size(len);
+    st.sample(cls, || json!({"text": show_bytes(&text[..len.min(200)]), "len": len, "ones": ones.len(), "ib_words": words}));
+
+    let huge_k = u.ratio(1, 12);
+    let q = Queries { dense: words <= 40 };
+    check_rank_select("owned", &index, text, &ones, u, st, &q, false)?;
+
+    // borrowed index over the same words (generic storage)
+    if u.ratio(1, 3) {
+        let ibw: Vec<u64> = index.ib().to_vec();
+        let bpw: Vec<u64> = index.bp().words().to_vec();
+        let b: JsonIndex<&[u64]> = JsonIndex::from_parts(&ibw[..], index.ib_len(), &bpw[..], index.bp().len());
+        st.class("borrowed-from_parts");
+        check_rank_select("borrowed", &b, text, &ones, u, st, &Queries { dense: false }, false)?;
+    }
+
+    // offset -> node, consistency half (any text)
+    let root = index.root(text);
+    let opts: Vec<usize> = if len <= 600 {
+        (0..=len + 2).collect()
+    } else {
+        let mut v: Vec<usize> = (0..150).map(|_| u.range(0, len + 1)).collect();
+        v.extend([0, 1, len - 1, len, len + 1]);
+        for _ in 0..50 {
+            if !ones.is_empty() {
+                let p = ones[u.below(ones.len())];
+                v.extend([p.saturating_sub(1), p, p + 1]);
+            }
+        }
+        v
+    };
+    for &o in &opts {
+        if let Some(c) = root.cursor_at_offset(o) {
+            let pred = if o < len { ones[..ones.partition_point(|&x| x <= o)].last().copied() } else { None };
+            let tp = c.text_position();
+            if pred.is_none() || tp != pred {
+                fail!("C07/cursor_at_offset/any-text/inconsistent-start", {"offset": o, "expected_start": pred, "cursor_text_position": tp, "bp": c.bp_position(), "input": crate::props::c06::text_json(text)});
+            }
+        }
+    }
+    st.evals(opts.len() as u64);
+
+    if huge_k {
+        check_rank_select("owned-huge-k", &index, text, &ones, u, st, &Queries { dense: false }, true)?;
+    }
+    Ok(())
+}
+
+// ------------------------------------------------------------------ node positions
+
+fn naive_line_starts(text: &[u8]) -> Vec<usize> {
+    let mut starts = vec![0usize];
+    let mut i = 0;
+    while i < text.len() {
+        let next = match text[i] {
+            b'\n' => i + 1,
+            b'\r' => {
+                if i + 1 < text.len() && text[i + 1] == b'\n' {
+                    i + 2
+                } else {
+                    i + 1
+                }
+            }
+            _ => {
+                i += 1;
+                continue;
+            }
+        };
+        if next < text.len() {
+            starts.push(next);
+        }
+        i = next;
+    }
+    starts
+}
+
+fn check_positions(root_j: &J, r: &Rendered, u: &mut Src, st: &mut Stats) -> Result<(), Fail> {
+    let text = &r.text[..];
+    let len = text.len();
+    let index = JsonIndex::build(text);
+    let root = index.root(text);
+    let tj = || crate::props::c06::text_json(text);
+    let _ = root_j;
+
+    // all cursors reachable from the root, document order
+    let mut walked: Vec<JsonCursor<'_, Vec<u64>>> = Vec::with_capacity(r.spans.len());
+    {
+        let mut stack = vec![root];
+        while let Some(c) = stack.pop() {
+            walked.push(c);
+            let mut kids = vec![];
+            let mut k = c.first_child();
+            while let Some(kc) = k {
+                kids.push(kc);
+                k = kc.next_sibling();
+            }
+            for kc in kids.into_iter().rev() {
+                stack.push(kc);
+            }
+        }
+    }
+    check_eq!("C07/nodes/count", r.spans.len(), walked.len(), {"input": tj()});
+    for (i, c) in walked.iter().enumerate() {
+        let sp = &r.spans[i];
+        let tp = c.text_position();
+        if tp != Some(sp.start) {
+            fail!(format!("C07/text_position/{}", if sp.role == Role::Key { "key" } else { sp.kind }), {"node": i, "expected": sp.start, "actual": tp, "bp": c.bp_position(), "input": tj()});
+        }
+    }
+    st.evals(walked.len() as u64);
+
+    let starts: Vec<usize> = r.spans.iter().map(|s| s.start).collect();
+    let lines = naive_line_starts(text);
+    let offsets: Vec<usize> = if len <= 3000 {
+        (0..=len + 2).collect()
+    } else {
+        let mut v: Vec<usize> = (0..400).map(|_| u.range(0, len + 1)).collect();
+        v.extend([0, 1, len - 1, len, len + 1]);
+        for _ in 0..300 {
+            let sp = &r.spans[u.below(r.spans.len())];
+            v.extend([sp.start.saturating_sub(1), sp.start, sp.start + 1, sp.end.saturating_sub(1), sp.end]);
+        }
+        v
+    };
+    // a second receiver: the result must not depend on the cursor it is called on
+    let other = walked[u.below(walked.len())];
+    for &o in &offsets {
+        let idx = starts.partition_point(|&s| s <= o);
+        let exp = if o < len && idx > 0 { Some(idx - 1) } else { None };
+        for (recv, name) in [(&root, "root"), (&other, "other")] {
+            let act = recv.cursor_at_offset(o);
+            match (exp, act) {
+                (None, None) => {}
+                (Some(e), Some(a)) if a.bp_position() == walked[e].bp_position() => {}
+                (e, a) => {
+                    let shape = match (e, a) {
+                        (None, Some(_)) => "some-where-none-expected",
+                        (Some(_), None) => "none-where-node-expected",
+                        _ => "wrong-node",
+                    };
+                    fail!(format!("C07/cursor_at_offset/{}", shape), {"receiver": name, "offset": o, "expected_node": e, "expected_start": e.map(|e| starts[e]), "actual_bp": a.map(|a| a.bp_position()), "actual_start": a.and_then(|a| a.text_position()), "input": tj()});
+                }
+            }
+        }
+        // equivalent line/column
+        if o < len {
+            let li = lines.partition_point(|&s| s <= o) - 1;
+            let (line, col) = (li + 1, o - lines[li] + 1);
+            let act = root.cursor_at_position(line, col);
+            match (exp, act) {
+                (None, None) => {}
+                (Some(e), Some(a)) if a.bp_position() == walked[e].bp_position() => {}
+                (e, a) => {
+                    fail!("C07/cursor_at_position/wrong-node", {"offset": o, "line": line, "column": col, "expected_node": e, "expected_start": e.map(|e| starts[e]), "actual_bp": a.map(|a| a.bp_position()), "actual_start": a.and_then(|a| a.text_position()), "input": tj()});
+                }
+            }
+        }
+    }
+    st.evals(offsets.len() as u64 * 3);
+    // documented None cases of the line/column form
+    for (l, c) in [(0usize, 1usize), (1, 0), (0, 0), (lines.len() + 1, 1), (usize::MAX, 1)] {
+        if root.cursor_at_position(l, c).is_some() {
+            fail!("C07/cursor_at_position/some-for-invalid-position", {"line": l, "column": c, "input": tj()});
+        }
+    }
+    for o in [BIG, BIG + 1, usize::MAX] {
+        if root.cursor_at_offset(o).is_some() {
+            fail!("C07/cursor_at_offset/some-where-none-expected", {"offset": o, "input": tj()});
+        }
+    }
+    st.evals(8);
+    Ok(())
+}
+
+// ------------------------------------------------------------------ replays
+
+fn replay_input(v: &Value) -> Option<Fail> {
+    // {"subcheck": "ib-rank-select", "input": {"text": "...", "api": "ib_select1"|"ib_select1_from", "k": n, "hint": n}}
+    let inp = &v["input"];
+    let text = inp["text"].as_str().unwrap_or("").as_bytes().to_vec();
+    let k = inp["k"].as_u64().unwrap_or(0) as usize;
+    let index = JsonIndex::build(&text);
+    let ones = ones_of(index.ib(), index.ib_len());
+    let exp = ones.get(k).copied();
+    match inp["api"].as_str().unwrap_or("") {
+        "ib_select1" => {
+            let act = index.ib_select1(k);
+            if act != exp {
+                return Some(sel_fail("ib_select1", k, None, exp, act, &ones, &text));
+            }
+        }
+        "ib_select1_from" => {
+            let h = inp["hint"].as_u64().unwrap_or(0) as usize;
+            let act = index.ib_select1_from(k, h);
+            if act != exp {
+                return Some(sel_fail("ib_select1_from", k, Some(h), exp, act, &ones, &text));
+            }
+        }
+        other => return Some(Fail::new("harness/C07/replay-unknown-api", json!({"api": other}))),
+    }
+    None
+}
 
 pub fn run(cx: &mut Ctx) {
-    cx.infra("check not built");
+    cx.assume("model of the interest bits: the 1-bit positions of JsonIndex::ib() below ib_len(), read one bit at a time (harness code)");
+    cx.assume("node starts come from the G-json renderer's span table; line/column by a naive LF / CR / CRLF scan (a terminator at the very end starts no line)");
+    cx.assume("for malformed input only consistency of cursor_at_offset is asserted (the approximate bp_len can make a node unreachable)");
+    for (name, v) in cx.replays.clone() {
+        if v["kind"] == "input" {
+            let r = replay_input(&v);
+            cx.replay_outcome(&name, r);
+        }
+    }
+    let thorough = cx.tier == Tier::Thorough;
+    let max_text = 20_000;
+    cx.check(
+        "ib-rank-select",
+        RULE,
+        Budget { quick: 300_000, thorough: 6_000_000, max_len: 6000 },
+        |u, st| {
+            let (text, cls) = any_text(u, max_text);
+            st.describe(|| crate::props::c06::text_json(&text));
+            check_any_text(&text, cls, u, st)
+        },
+    );
+    for cl in ["nontrivial", "ib-words>40", "ib-words>128", "zero-ib-words>=3", "gap>=4-words-between-ones", "source-valid", "source-mutated", "source-soup", "source-raw", "borrowed-from_parts", "huge-k-probe", "no-ones", "len-not-multiple-of-64"] {
+        cx.require_class("ib-rank-select", cl, 20);
+    }
+    let max_nodes = if thorough { 1500 } else { 300 };
+    cx.check(
+        "node-positions",
+        RULE,
+        Budget { quick: 160_000, thorough: 3_000_000, max_len: if thorough { 30_000 } else { 10_000 } },
+        |u, st| {
+            let deep = u.ratio(1, 12);
+            let o = GenOpts {
+                max_depth: if deep { 2 } else { *u.pick(&[1, 2, 3, 4, 6, 10]) },
+                max_nodes: if deep {
+                    u.range(1, 8)
+                } else {
+                    match u.below(4) {
+                        0 => u.range(1, 10),
+                        _ => u.range(5, max_nodes),
+                    }
+                },
+                keys: *u.pick(&[KeyPalette::AsStrings, KeyPalette::Ident, KeyPalette::Hostile]),
+                max_str_len: *u.pick(&[4, 24, 100]),
+                ..GenOpts::default()
+            };
+            let mut j = gen_value(u, &o);
+            if deep {
+                let d = *u.pick(&[64usize, 127, 129, 257, 300]);
+                j = wrap_deep(u, j, d);
+            }
+            let ro = render_opts(u);
+            let r = render(&j, u, ro);
+            let text = &r.text;
+            let index_words = text.len().div_ceil(64);
+            let nt = index_words >= 2 && r.spans.len() >= 3;
+            if nt {
+                st.nontrivial(hash_bytes(text));
+            }
+            st.class_if(nt, "nontrivial");
+            st.class_if(deep, "deep-chain");
+            st.class_if(text.contains(&b'\n'), "has-lf");
+            st.class_if(text.contains(&b'\r'), "has-cr");
+            st.class_if(text.windows(2).any(|w| w == b"\r\n"), "has-crlf");
+            st.class_if(text.first().map_or(false, |b| b.is_ascii_whitespace()), "whitespace-before-root");
+            st.class_if(text.last().map_or(false, |b| b.is_ascii_whitespace()), "whitespace-after-root");
+            st.class_if(r.spans.iter().any(|s| s.role == Role::Key), "has-keys");
+            st.class_if(text.len() > 3000, "len>3000");
+            st.class(&format!("ws-{:?}", ro.ws));
+            st.size(text.len());
+            st.sample(if deep { "deep" } else { "plain" }, || json!({"text": show_bytes(&text[..text.len().min(200)]), "len": text.len(), "nodes": r.spans.len()}));
+            st.describe(|| crate::props::c06::text_json(text));
+            let res = check_positions(&j, &r, u, st);
+            drop_deep(j);
+            res
+        },
+    );
+    for cl in ["nontrivial", "deep-chain", "has-lf", "has-cr", "has-crlf", "whitespace-before-root", "whitespace-after-root", "has-keys", "len>3000"] {
+        cx.require_class("node-positions", cl, 20);
+    }
 }
